@@ -36,6 +36,7 @@ type fnInfo struct {
 	intr  Intrinsic
 	intrK bool // intrinsic lookup done
 	repo  bool
+	seen  bool
 	ifIdx map[*ssa.If]int
 }
 
@@ -308,6 +309,10 @@ func (in *Interp) callFn(fn *ssa.Function, args []Value, env []Value, caller *fr
 
 func (in *Interp) callSSA(fn *ssa.Function, args []Value, env []Value, caller *frame) (ret Value) {
 	fi := in.info(fn)
+	if fi.repo && !fi.seen {
+		fi.seen = true
+		in.cov.Fns[fn] = true
+	}
 	fr := &frame{fn: fn, info: fi, env: make([]Value, fi.n), caller: caller}
 	copy(fr.env, args)
 	copy(fr.env[len(fn.Params):], env)
